@@ -22,7 +22,8 @@ CONSTANTS TermKinds,     \* sequence of <<coefficient kind, vector kind>>: the t
           ApplyMaxTerms,
           NonVecKinds,   \* non-vector expressions (must be refused)
           ScalK2, ScalK1, ScalK0,   \* coefficient kinds of the scalar equations k2 x^2 + k1 x + k0 = 0
-          Assigns
+          Assigns,
+          ShardK, ShardI  \* the enumeration can be split over ShardK TLC processes (by the first term); 1, 0 = all
 
 VARIABLES mode,    \* "start" | "vec" | "nonvec" | "scalar"
           terms,   \* vec: indices into TermKinds (strictly increasing); nonvec: <<kind>>; scalar: <<k2, k1, k0>>
@@ -192,6 +193,11 @@ Next == \/ \E i \in DOMAIN TermKinds : AddTerm(i)
         \/ \E k2 \in ScalK2, k1 \in ScalK1, k0 \in ScalK0, f \in Forms : ScalarEq(k2, k1, k0, f)
 
 Spec == Init /\ [][Next]_vars
+
+\* state constraint of shard ShardI: equations whose first term has index = ShardI mod ShardK; the non-vector
+\* and scalar shapes belong to shard 0
+InShard == IF mode = "vec" THEN terms[1] % ShardK = ShardI
+           ELSE IF mode = "start" THEN TRUE ELSE ShardI = 0
 
 \* how an equation is written: which side each term is on
 \*   expr: an expression (all terms left, no Eq)      eqL: Eq(all terms, 0)
